@@ -14,6 +14,8 @@ package main
 //         F<v>   final report of v used units (FINAL trigger: the rating group is settled in debit mode - one rating
 //                request for the price, one account-balance request that refunds / debits the difference), deadline 14 s
 //         W<ms>  wait
+//         S<0|1> (first step, written by the generator) whether the account-balance server was measured to handle the requests
+//                for one account one after the other (peerserial.go); the model's world lets requests wait accordingly
 //         N<k>   k prompt online updates (for the connection count)
 //         C      sample connections / goroutines
 //         HA<ms> queue a connection set-up time for the next connection to the account-balance peer (peerproxy.go)
@@ -425,6 +427,8 @@ func runPeer(line string, t []string) string {
 			sc.mu.Unlock()
 		case 'W':
 			time.Sleep(time.Duration(arg) * time.Millisecond)
+		case 'S':
+			// S1 / S0: what the generator measured about the account-balance server (for the model; nothing to do here)
 		case 'Q':
 			if !spoilDocument(supi, arg) {
 				return "bad-op"
@@ -525,9 +529,14 @@ func runPeer(line string, t []string) string {
 func genPeer(o genOpts, w *bufio.Writer) {
 	r := &rng{s: o.seed}
 	n := 0
+	// measured once per run: does the account-balance server handle one account's requests one after the other? (peerserial.go)
+	serial := "S0"
+	if abmfSerialises() {
+		serial = "S1"
+	}
 	scen := func(steps string) {
 		n++
-		fmt.Fprintf(w, "peer scen %s %s\n", hexOf([]byte(fmt.Sprintf("imsi-20893%04d%06d", o.seed%10000, n))), steps)
+		fmt.Fprintf(w, "peer scen %s %s %s\n", hexOf([]byte(fmt.Sprintf("imsi-20893%04d%06d", o.seed%10000, n))), serial, steps)
 	}
 	late, never := 6500, 40000
 	// C18: connection / task count after 10, 100 (thorough: 1000) prompt updates
